@@ -12,23 +12,9 @@ e == TraceLog[l]
 TInit == Init /\ l = 1
 
 (* ------------------------------------------------------------------ emit events (C08) *)
-Kind == e.a[1]
-Tr == e.a[2]
-Mem16 == e.a[3] = 1
-Seq0 == e.a[4]
-Rest == Drop(e.a, 4)
-EmittedFrame ==
-    CASE Kind \in {1, 2} -> Request(Tr, FALSE, Kind = 2, Seq0, <<Rest[1], Rest[2]>>, Rest[3], <<>>)
-      [] Kind \in {3, 4} -> Request(Tr, TRUE, Kind = 4, Seq0, <<Rest[1], Rest[2]>>, Rest[3], Drop(Rest, 3))
-      [] Kind = 5 -> AckResponse(Tr, Rest[1], Mem16, Rest[2], <<Rest[3], Rest[4]>>, Rest[5], Drop(Rest, 5))
-      [] Kind = 30 -> MetaMessage(Tr, Rest[1])
-      [] OTHER -> ErrResponse(Tr, Rest[1], Kind - 10, Rest[2], <<Rest[3], Rest[4]>>,
-                              IF Len(Rest) >= 6 THEN <<Rest[5], Rest[6]>> ELSE <<0, 0>>)
-PeerView(o) == LET f == Fields(o)
-               IN <<0, 0, f.type, f.opts, f.meta, f.sq>> \o f.addr \o f.bs \o PayloadOf(o)
-EmitOK == LET fr == EmittedFrame
-          IN /\ Classes(fr) = {C_OK}                                          \* the spec's own reading accepts it
-             /\ e.o = <<0, IF Kind \in 1..4 THEN (Seq0 + 1) % 65536 ELSE Seq0>> \o Wire(Tr, fr) \o <<-7>> \o PeerView(fr)
+EmitOK == LET args == e.a
+          IN /\ Classes(EmittedFrameOf(args)) = {C_OK}                        \* the spec's own reading accepts it
+             /\ e.o = EmitObs(args)
 
 (* ------------------------------------------------------------------ rx events (C06, C07, C09) *)
 MustFail == e.a[1] = 1        \* set by the generator for corruptions inside the family the CRC guarantees to be caught
